@@ -512,6 +512,15 @@ func NewFileReader(readerOptions ...FileReaderOption) (ReaderI, error) {
 		return nil, errors.New("NewFileReader: either os.File or string path must be supplied, never both")
 	}
 
+	// as in NewFileWriter: the passed file handle is closed, a new one is created by the factory from its path
+	if opts.file != nil {
+		opts.path = opts.file.Name()
+		err := opts.file.Close()
+		if err != nil {
+			return nil, fmt.Errorf("error while closing existing file handle at '%s': %w", opts.path, err)
+		}
+	}
+
 	f, r, err := opts.factory.CreateNewReader(opts.path, opts.bufferSizeBytes)
 	if err != nil {
 		return nil, err
